@@ -71,7 +71,7 @@ const fn pat(kind: u8, d: u8) -> Held {
 /// collects into certificate inputs are then concrete; with symbolic presence one `collect()`
 /// of 112-byte votes at symbolic offsets costs ~8 M SAT variables, measured).  Stakes, and
 /// which certificates were already received from the network, stay symbolic.
-fn step_body(kind: u8, own: usize, d: [u8; N], allow: u8) {
+fn step_body(kind: u8, own: usize, d: [u8; N], allow: u8) -> usize {
     // --- symbolic world --------------------------------------------------------------------
     let stakes: [u64; N] = [vs::any_u16() as u64, vs::any_u16() as u64];
     let held: [Held; N] = [pat(kind, d[0]), pat(kind, d[1])];
@@ -179,22 +179,26 @@ fn step_body(kind: u8, own: usize, d: [u8; N], allow: u8) {
     vcheck!(seen[2] == want_skip as u8, "skip certificate missing, unjustified or duplicated");
     vcheck!(seen[4] == want_fin as u8, "finalization certificate missing, unjustified or duplicated");
 
-    // (with two validators "no certificate" is unreachable when the other one already holds
-    // the vote, so only the creatable case is witnessed there)
-    if allow != 0 {
-        vcover!(certs.len() > 0, "a certificate is created");
-    } else {
-        vcover!(certs.len() == 0, "no certificate is created");
-    }
+    let n_created = certs.len();
     std::mem::forget(st);
     std::mem::forget(fx);
     std::mem::forget(certs);
     std::mem::forget(_events);
     std::mem::forget(_repairs);
+    n_created
+}
+
+/// a certificate type is creatable in this harness: creation must be witnessed
+fn cov_created(n: usize) {
+    vcover!(n > 0, "a certificate is created");
+}
+/// every certificate type is already present: nothing may be created
+fn cov_none(n: usize) {
+    vcover!(n == 0, "no certificate is created");
 }
 
 macro_rules! h {
-    ($name:ident, $kind:literal, $own:literal, $d:expr, $allow:literal) => {
+    ($name:ident, $kind:literal, $own:literal, $d:expr, $allow:literal, $cov:ident) => {
         #[cfg_attr(kani, kani::proof)]
         #[cfg_attr(kani, kani::stub(crate::crypto::aggsig::SecretKey::sign, crate::consensus::kani_fix::sign_stub))]
         #[cfg_attr(kani, kani::stub(crate::consensus::cert::NotarCert::new, crate::consensus::cert::kani_certstub::notar_new_stub))]
@@ -205,57 +209,57 @@ macro_rules! h {
         #[cfg_attr(kani, kani::unwind(6))]
         #[cfg_attr(verif_replay, test)]
         fn $name() {
-            step_body($kind, $own, $d, $allow)
+            $cov(step_body($kind, $own, $d, $allow))
         }
     };
 }
 // GENERATED-BEGIN (harness/C03/gen.py)
-h!(c03_p_notar_00_nf, 0, 1, [0, 0], 2);
-h!(c03_p_notar_00_no, 0, 1, [0, 0], 1);
-h!(c03_p_notar_00_ff, 0, 1, [0, 0], 8);
-h!(c03_p_notar_00_zz, 0, 1, [0, 0], 0);
-h!(c03_p_notar_01_nf, 0, 1, [0, 1], 2);
-h!(c03_p_notar_01_no, 0, 1, [0, 1], 1);
-h!(c03_p_notar_01_ff, 0, 1, [0, 1], 8);
-h!(c03_p_notar_01_zz, 0, 1, [0, 1], 0);
-h!(c03_p_notar_02_nf, 0, 1, [0, 2], 2);
-h!(c03_p_notar_02_no, 0, 1, [0, 2], 1);
-h!(c03_p_notar_02_ff, 0, 1, [0, 2], 8);
-h!(c03_p_notar_02_zz, 0, 1, [0, 2], 0);
-h!(c03_p_notar_03_nf, 0, 1, [0, 3], 2);
-h!(c03_p_notar_03_no, 0, 1, [0, 3], 1);
-h!(c03_p_notar_03_ff, 0, 1, [0, 3], 8);
-h!(c03_p_notar_03_zz, 0, 1, [0, 3], 0);
-h!(c03_p_notar_04_nf, 0, 1, [0, 4], 2);
-h!(c03_p_notar_04_no, 0, 1, [0, 4], 1);
-h!(c03_p_notar_04_ff, 0, 1, [0, 4], 8);
-h!(c03_p_notar_04_zz, 0, 1, [0, 4], 0);
-h!(c03_p_nfallback_00_nf, 1, 1, [0, 0], 2);
-h!(c03_p_nfallback_00_zz, 1, 1, [0, 0], 0);
-h!(c03_p_nfallback_01_nf, 1, 1, [0, 1], 2);
-h!(c03_p_nfallback_01_zz, 1, 1, [0, 1], 0);
-h!(c03_p_nfallback_03_nf, 1, 1, [0, 3], 2);
-h!(c03_p_nfallback_03_zz, 1, 1, [0, 3], 0);
-h!(c03_p_nfallback_21_nf, 1, 1, [2, 1], 2);
-h!(c03_p_nfallback_21_zz, 1, 1, [2, 1], 0);
-h!(c03_p_nfallback_23_nf, 1, 1, [2, 3], 2);
-h!(c03_p_nfallback_23_zz, 1, 1, [2, 3], 0);
-h!(c03_p_skip_00_sk, 2, 1, [0, 0], 4);
-h!(c03_p_skip_00_zz, 2, 1, [0, 0], 0);
-h!(c03_p_skip_01_sk, 2, 1, [0, 1], 4);
-h!(c03_p_skip_01_zz, 2, 1, [0, 1], 0);
-h!(c03_p_skip_02_sk, 2, 1, [0, 2], 4);
-h!(c03_p_skip_02_zz, 2, 1, [0, 2], 0);
-h!(c03_p_sfallback_00_sk, 3, 1, [0, 0], 4);
-h!(c03_p_sfallback_00_zz, 3, 1, [0, 0], 0);
-h!(c03_p_sfallback_01_sk, 3, 1, [0, 1], 4);
-h!(c03_p_sfallback_01_zz, 3, 1, [0, 1], 0);
-h!(c03_p_sfallback_02_sk, 3, 1, [0, 2], 4);
-h!(c03_p_sfallback_02_zz, 3, 1, [0, 2], 0);
-h!(c03_p_final_00_fi, 4, 1, [0, 0], 16);
-h!(c03_p_final_00_zz, 4, 1, [0, 0], 0);
-h!(c03_p_final_01_fi, 4, 1, [0, 1], 16);
-h!(c03_p_final_01_zz, 4, 1, [0, 1], 0);
-h!(c03_pown_notar_01_no, 0, 0, [0, 1], 1);
-h!(c03_pown_skip_01_sk, 2, 0, [0, 1], 4);
+h!(c03_p_notar_00_nf, 0, 1, [0, 0], 2, cov_created);
+h!(c03_p_notar_00_no, 0, 1, [0, 0], 1, cov_created);
+h!(c03_p_notar_00_ff, 0, 1, [0, 0], 8, cov_created);
+h!(c03_p_notar_00_zz, 0, 1, [0, 0], 0, cov_none);
+h!(c03_p_notar_01_nf, 0, 1, [0, 1], 2, cov_created);
+h!(c03_p_notar_01_no, 0, 1, [0, 1], 1, cov_created);
+h!(c03_p_notar_01_ff, 0, 1, [0, 1], 8, cov_created);
+h!(c03_p_notar_01_zz, 0, 1, [0, 1], 0, cov_none);
+h!(c03_p_notar_02_nf, 0, 1, [0, 2], 2, cov_created);
+h!(c03_p_notar_02_no, 0, 1, [0, 2], 1, cov_created);
+h!(c03_p_notar_02_ff, 0, 1, [0, 2], 8, cov_created);
+h!(c03_p_notar_02_zz, 0, 1, [0, 2], 0, cov_none);
+h!(c03_p_notar_03_nf, 0, 1, [0, 3], 2, cov_created);
+h!(c03_p_notar_03_no, 0, 1, [0, 3], 1, cov_created);
+h!(c03_p_notar_03_ff, 0, 1, [0, 3], 8, cov_created);
+h!(c03_p_notar_03_zz, 0, 1, [0, 3], 0, cov_none);
+h!(c03_p_notar_04_nf, 0, 1, [0, 4], 2, cov_created);
+h!(c03_p_notar_04_no, 0, 1, [0, 4], 1, cov_created);
+h!(c03_p_notar_04_ff, 0, 1, [0, 4], 8, cov_created);
+h!(c03_p_notar_04_zz, 0, 1, [0, 4], 0, cov_none);
+h!(c03_p_nfallback_00_nf, 1, 1, [0, 0], 2, cov_created);
+h!(c03_p_nfallback_00_zz, 1, 1, [0, 0], 0, cov_none);
+h!(c03_p_nfallback_01_nf, 1, 1, [0, 1], 2, cov_created);
+h!(c03_p_nfallback_01_zz, 1, 1, [0, 1], 0, cov_none);
+h!(c03_p_nfallback_03_nf, 1, 1, [0, 3], 2, cov_created);
+h!(c03_p_nfallback_03_zz, 1, 1, [0, 3], 0, cov_none);
+h!(c03_p_nfallback_21_nf, 1, 1, [2, 1], 2, cov_created);
+h!(c03_p_nfallback_21_zz, 1, 1, [2, 1], 0, cov_none);
+h!(c03_p_nfallback_23_nf, 1, 1, [2, 3], 2, cov_created);
+h!(c03_p_nfallback_23_zz, 1, 1, [2, 3], 0, cov_none);
+h!(c03_p_skip_00_sk, 2, 1, [0, 0], 4, cov_created);
+h!(c03_p_skip_00_zz, 2, 1, [0, 0], 0, cov_none);
+h!(c03_p_skip_01_sk, 2, 1, [0, 1], 4, cov_created);
+h!(c03_p_skip_01_zz, 2, 1, [0, 1], 0, cov_none);
+h!(c03_p_skip_02_sk, 2, 1, [0, 2], 4, cov_created);
+h!(c03_p_skip_02_zz, 2, 1, [0, 2], 0, cov_none);
+h!(c03_p_sfallback_00_sk, 3, 1, [0, 0], 4, cov_created);
+h!(c03_p_sfallback_00_zz, 3, 1, [0, 0], 0, cov_none);
+h!(c03_p_sfallback_01_sk, 3, 1, [0, 1], 4, cov_created);
+h!(c03_p_sfallback_01_zz, 3, 1, [0, 1], 0, cov_none);
+h!(c03_p_sfallback_02_sk, 3, 1, [0, 2], 4, cov_created);
+h!(c03_p_sfallback_02_zz, 3, 1, [0, 2], 0, cov_none);
+h!(c03_p_final_00_fi, 4, 1, [0, 0], 16, cov_created);
+h!(c03_p_final_00_zz, 4, 1, [0, 0], 0, cov_none);
+h!(c03_p_final_01_fi, 4, 1, [0, 1], 16, cov_created);
+h!(c03_p_final_01_zz, 4, 1, [0, 1], 0, cov_none);
+h!(c03_pown_notar_01_no, 0, 0, [0, 1], 1, cov_created);
+h!(c03_pown_skip_01_sk, 2, 0, [0, 1], 4, cov_created);
 // GENERATED-END
